@@ -75,6 +75,9 @@ type CorreOTSetupSendRound1Message struct {
 // Round1 executes the Sender's first round of the Correlated OT setup.
 func (r *CorreOTSetupSender) Round1(msg *CorreOTSetupReceiveRound1Message) (*CorreOTSetupSendRound1Message, error) {
 	var err error
+	if msg == nil || msg.Msg.B == nil || msg.Msg.BProof == nil {
+		return nil, errors.New("CorreOTSetupSender Round1: missing fields")
+	}
 	r.setup, err = RandomOTSetupReceive(r.hash, &msg.Msg)
 	if err != nil {
 		return nil, err
@@ -293,6 +296,9 @@ type CorreOTSendResult struct {
 // A single setup can be used for multiple runs of the protocol, but it's important
 // that ctxHash be initialized with some kind of nonce in that case.
 func CorreOTSend(ctxHash *hash.Hash, setup *CorreOTSendSetup, batchSize int, msg *CorreOTReceiveMessage) (*CorreOTSendResult, error) {
+	if msg == nil {
+		return nil, errors.New("CorreOTSend: missing message")
+	}
 	batchSizeBytes := batchSize >> 3
 
 	// Doing a keyed hash for our PRG is faster than cloning a forked hash many times
